@@ -840,3 +840,127 @@ Lemma holds_b_no_attempts_error c : holds_b c = true -> c_fired c = None -> c_ou
 Proof.
   unfold holds_b. intros H F C. rewrite F, C in H. apply andb_true_iff in H. destruct H as [_ H]. discriminate.
 Qed.
+
+(* ---------------------------------------------------------------------------------------- *)
+(* 8. the attempt loop of reproduce                                                          *)
+(* ---------------------------------------------------------------------------------------- *)
+Definition ratio_ok (p : rparams) : Prop := r_num p <= r_den p /\ 0 < r_den p.
+
+Lemma NoDup_snoc {A} (d : list A) x : NoDup d -> ~ In x d -> NoDup (d ++ [x]).
+Proof.
+  induction d as [|y r IH]; simpl; intros ND NI.
+  - constructor; [intros []|constructor].
+  - inversion ND; subst. constructor.
+    + intros C. apply in_app_or in C. destruct C as [C|[C|[]]]; [contradiction|subst; tauto].
+    + apply IH; tauto.
+Qed.
+
+Lemma dict_update_spec l : forall d,
+  NoDup d -> NoDup (dict_update d l) /\ incl d (dict_update d l) /\
+             (forall x, In x (dict_update d l) -> In x d \/ In x l).
+Proof.
+  induction l as [|x r IH]; intros d ND; simpl.
+  - split; [exact ND|]. split; [apply incl_refl|]. auto.
+  - destruct (mem x d) eqn:M.
+    + destruct (IH d ND) as [N [I O]]. split; [exact N|]. split; [exact I|].
+      intros y Hy. destruct (O y Hy); auto.
+    + apply mem_false in M.
+      assert (ND' : NoDup (d ++ [x])).
+      { apply NoDup_snoc; assumption. }
+      destruct (IH (d ++ [x]) ND') as [N [I O]]. split; [exact N|]. split.
+      * eapply incl_tran; [|exact I]. apply incl_appl, incl_refl.
+      * intros y Hy. destruct (O y Hy) as [H|H]; [|auto].
+        apply in_app_or in H. destruct H as [H|[<-|[]]]; auto.
+Qed.
+
+Lemma firstn_In' {A} n : forall (l : list A) x, In x (firstn n l) -> In x l.
+Proof.
+  induction n as [|n IH]; intros l x H; simpl in H; [contradiction|].
+  destruct l as [|y r]; [contradiction|]. destruct H as [H|H]; [left; exact H|right; apply IH, H].
+Qed.
+
+Lemma NoDup_firstn {A} n (l : list A) : NoDup l -> NoDup (firstn n l).
+Proof.
+  revert n. induction l as [|x r IH]; intros n ND; destruct n; simpl; try constructor.
+  - inversion ND; subst. intros C. apply firstn_In' in C. contradiction.
+  - inversion ND; subst. apply IH. assumption.
+Qed.
+
+Section ReproduceProofs.
+  Variable p : rparams.
+  Variable pop_len : nat.
+  Variable part : nat -> nat -> list ind.
+  Hypothesis R : ratio_ok p.
+
+  Definition delivered (x : ind) : Prop := exists i s, In x (part i s).
+
+  Lemma not_enough_below n : enough p n = false -> n < r_target p.
+  Proof.
+    destruct R as [R1 R2]. unfold enough. intros H. apply Nat.leb_gt in H.
+    destruct (Nat.lt_ge_cases n (r_target p)) as [L|L]; [exact L|exfalso].
+    assert (n * r_den p >= r_target p * r_num p).
+    { apply Nat.le_trans with (r_target p * r_den p); [apply Nat.mul_le_mono_l, R1|apply Nat.mul_le_mono_r, L]. }
+    lia.
+  Qed.
+
+  Lemma enough_min_firstn n : enough p n = true -> enough_min p (Nat.min (r_target p) n) = true.
+  Proof.
+    destruct R as [R1 R2]. unfold enough, enough_min. intros H. apply Nat.leb_le in H. apply Nat.leb_le.
+    destruct (Nat.min_spec (r_target p) n) as [[_ ->]|[_ ->]].
+    - assert (r_target p * r_num p <= r_target p * r_den p) by (apply Nat.mul_le_mono_l, R1). lia.
+    - lia.
+  Qed.
+
+  Definition result_ok (r : rres) : Prop :=
+    match r with
+    | RetOk l => NoDup l /\ length l <= r_target p /\ enough_min p (length l) = true /\
+                 forall x, In x l -> delivered x
+    | RaiseAttempts => True
+    end.
+
+  Lemma rloop_ok fuel : forall i collected w,
+    NoDup collected -> length collected <= r_target p -> (forall x, In x collected -> delivered x) ->
+    result_ok (fst (rloop p pop_len part fuel i collected w)).
+  Proof.
+    induction fuel as [|f IH]; intros i collected w ND L D; simpl.
+    - destruct (enough_min p (length collected)) eqn:E; simpl; auto.
+    - set (rs := req_size p pop_len (length collected) w).
+      set (c' := dict_update collected (part i rs)).
+      destruct (dict_update_spec (part i rs) collected ND) as [ND' [_ O]]. fold c' in ND', O.
+      assert (D' : forall x, In x c' -> delivered x).
+      { intros x Hx. destruct (O x Hx) as [H|H]; [apply D, H|]. exists i, rs. exact H. }
+      destruct (enough p (length c')) eqn:E; simpl.
+      + split; [apply NoDup_firstn, ND'|]. rewrite firstn_length. split; [lia|]. split.
+        * apply enough_min_firstn, E.
+        * intros x Hx. apply D'. eapply firstn_In', Hx.
+      + match goal with |- context [rloop p pop_len part f (S i) c' ?w'] =>
+          specialize (IH (S i) c' w' ND' (Nat.lt_le_incl _ _ (not_enough_below _ E)) D');
+          destruct (rloop p pop_len part f (S i) c' w') as [r ss] end.
+        simpl in *. exact IH.
+  Qed.
+
+  (* T5: a returned population has no repeated individual, at most `pop_size` members, at least
+     half the required fraction of it, and consists of individuals the evaluator let through *)
+  Theorem reproduce_bounds w : result_ok (fst (reproduce p pop_len part w)).
+  Proof. unfold reproduce. apply rloop_ok; [constructor|simpl; lia|intros x []]. Qed.
+
+  Lemma rloop_raise fuel : forall i collected w ss,
+    rloop p pop_len part fuel i collected w = (RaiseAttempts, ss) ->
+    length ss = fuel /\ enough_min p (length (collect_all part i ss collected)) = false.
+  Proof.
+    induction fuel as [|f IH]; intros i collected w ss; simpl.
+    - destruct (enough_min p (length collected)) eqn:E; intros H; inversion H; subst. simpl. auto.
+    - set (rs := req_size p pop_len (length collected) w).
+      destruct (enough p (length (dict_update collected (part i rs)))); [intros H; inversion H|].
+      match goal with |- context [rloop p pop_len part f (S i) ?c ?w0] =>
+        destruct (rloop p pop_len part f (S i) c w0) as [r ss'] eqn:El end.
+      intros H. inversion H; subst. destruct (IH _ _ _ _ El) as [L E]. simpl. split; [lia|exact E].
+  Qed.
+
+  (* the dedicated error is raised only after every attempt was used and the distinct individuals
+     the evaluator delivered stay below half the required fraction *)
+  Theorem attempts_error_only_when_too_few w ss :
+    reproduce p pop_len part w = (RaiseAttempts, ss) ->
+    length ss = r_attempts p /\ enough_min p (length (collect_all part 0 ss [])) = false.
+  Proof. apply rloop_raise. Qed.
+End ReproduceProofs.
